@@ -343,11 +343,11 @@ def c01_r2(ctx):
     d = R.drain_fn()
     rc, lps = _recv_loop(ctx, d)
     ctx.inst("recv site", rc.where)
-    _drain_shape_gate(d)
     if len(lps) != 1 or not all(o[0][0] == "param" and all(st[0] in ("iter", "adapt") for st in o[1:]) for o in lps[0]["iter"]) \
             or d.origins_of_operand(rc.args[0]) != lps[0]["elem"]:
         ctx.viol((d.id, "not-receiver-order"), "tickets are not received by one recv per receiver in the fixed receiver (sorted-source) order: the sources hash would depend on the order in which producers finish, so identical sources can miss the history", rc.where)
         return
+    _drain_shape_gate(d)
     lp = lps[0]
     gts = [c for c in d.calls if c.bb in lp["body"] and c.path == "packet::Packet::get_ticket"]
     ctx.need(len(gts) == 1, "Packet::get_ticket call")
